@@ -346,11 +346,12 @@ struct Worker {
   cur: usize,
   core: Option<Box<Core>>,
   header: Option<Header>,
+  path: String,
 }
 
 impl Worker {
   fn new() -> Worker {
-    Worker { cur: usize::MAX, core: None, header: None }
+    Worker { cur: usize::MAX, core: None, header: None, path: String::new() }
   }
   fn ensure(&mut self, idx: usize, paths: &[String]) {
     if self.cur == idx && self.core.is_some() {
@@ -360,13 +361,43 @@ impl Worker {
     let mut core = load_like_main(&paths[idx]).expect("generated ROM must load");
     fill_ram(&mut core);
     self.header = Some(read_header_of(&paths[idx]).expect("header"));
+    self.path = paths[idx].clone();
     self.core = Some(core);
     self.cur = idx;
   }
-  /// power-on controller: what `MemoryAreas::with_rom_file` installs
+  /// power-on controller: the one the real load path (open, header, checksum,
+  /// `Core::from_rom_file`) installs for this file - taken from a freshly loaded machine, not
+  /// rebuilt from the header, so that what the loader does with the header is part of the subject
   fn reset_controller(&mut self) {
     let cs = self.header.as_ref().unwrap().create_cart_state();
     self.core.as_mut().unwrap().memory.cart_state = cs;
+  }
+
+  /// The controller the real load path installed for this file (taken once, right after
+  /// loading) must be the controller the header tables give: both are driven with the same
+  /// 4 x 72 register writes and must show the same banks after every one.  (Every other stage
+  /// re-creates the power-on controller from the header, which is only legitimate if this holds.)
+  fn loader_probe(&mut self) -> Option<(u16, u8, (usize, usize), (usize, usize))> {
+    let mut fresh = load_like_main(&self.path).expect("generated ROM must load");
+    let mut want = self.header.as_ref().unwrap().create_cart_state();
+    let got = &mut fresh.memory.cart_state;
+    let vals: [u8; 18] = [0, 1, 2, 3, 4, 5, 7, 8, 0x0A, 0x10, 0x1F, 0x20, 0x21, 0x3F, 0x40, 0x7F, 0x80, 0xFF];
+    for round in 0..4usize {
+      for (i, v) in vals.iter().enumerate() {
+        for (k, base) in [0x0000u16, 0x2000, 0x4000, 0x6000].iter().enumerate() {
+          let a = base + (((i * 4 + k + round) as u16 * 0x155) & 0x1FFF);
+          let v = v.wrapping_add(round as u8 * 3);
+          got.write_rom(a, v);
+          want.write_rom(a, v);
+          let g = (got.get_rom_bank(), got.get_ram_bank());
+          let w = (want.get_rom_bank(), want.get_ram_bank());
+          if g != w {
+            return Some((a, v, g, w));
+          }
+        }
+      }
+    }
+    None
   }
 }
 
@@ -1116,6 +1147,17 @@ pub fn run(tier: &str) -> i32 {
         let ci = (case / per) as usize;
         let si = (case % per) as usize;
         w.ensure(ci, &paths);
+        if si == 0 {
+          if let Some((a, v, g, wnt)) = w.loader_probe() {
+            ctx.violation(&format!("C12 cfg={} kind=loaded-machine-has-another-controller", ctl_name(cfgs[ci].ctl)), || {
+              J::obj()
+                .set("case", cfgs[ci].json().set("how", J::s("file loaded the way main.rs does; the controller of the loaded machine and Header::create_cart_state() driven with the same register writes")))
+                .set("first_difference_after_write", J::s(format!("{:04X}<-{:02X}", a, v)))
+                .set("loaded_machine", J::s(format!("rom bank {} ram bank {}", g.0, g.1)))
+                .set("header_tables", J::s(format!("rom bank {} ram bank {}", wnt.0, wnt.1)))
+            });
+          }
+        }
         run_state_case(w, ctx, &cfgs[ci], cl, si);
       },
       |case, how| {
